@@ -1,5 +1,9 @@
 import TracklibVerif.Model.Proj
-/-! Model of `tracklib/algo/mapping.py` `mapOnNetwork` / `__mapOnNetwork` (C10), on top of `Model/Proj`.
+/-! Model of the core of `tracklib/algo/mapping.py` `__mapOnNetwork` (C10), on top of `Model/Proj`: candidate loop, flag state,
+inference column. The construction path of the network (`Network.addNode` / `addEdge`, `computeAbsCurv` on the edge geometries),
+the candidates taken from the network's own spatial index (the model of C08, with the search unit as coded) and the front end
+`mapOnNetwork` (bare track / collection, arguments, the `obs_noise` column) are in `Model/MapMatchNet`, which calls the
+definitions of this file.
 
 Per observation `i` (in order): the candidate edge numbers `E` are an INPUT (what
 `network.spatial_index.neighborhood(p, unit)` returned in the real call; `none` when it returned `None`);
